@@ -564,6 +564,38 @@ static void gen_retry(vh_rng_t *rng)
   if (vh_chance(rng, 1, 10)) {
     gen_add_action((int64_t)vh_below(rng, 3000000), AA_CANCEL, 0, 0);
   }
+  if (vh_chance(rng, 1, 8)) {
+    /* learned timeouts across the end of a metrics period: a fast server answers several requests shortly
+     * before the virtual clock passes a minute / quarter-hour / hour / day boundary and a few more right after
+     * it, so that base timeouts are taken from the current period, from the previous one (while the new one
+     * has fewer than three samples) and from the configured value; floor and cap apply to all of them */
+    static const int64_t per[] = { 60, 900, 3600, 86400 };
+    int64_t              P     = per[vh_below(rng, 4)] * 1000000LL;
+    int64_t              lead  = (int64_t)vh_range(rng, 300, 1500) * 1000;
+    int64_t              t;
+    int                  good  = (int)vh_below(rng, (uint32_t)sim_nsrv), k, nb = vh_range(rng, 3, 6), na = vh_range(rng, 2, 5);
+    sim_now_us = (sim_now_us / P + 1) * P - lead + (int64_t)vh_below(rng, 1000);
+    gen_srv_mood(&sim_srv[good], MOOD_GOOD, rng);
+    sim_srv[good].delay_min_ms = 1;
+    sim_srv[good].delay_max_ms = vh_range(rng, 1, 40);
+    app_cfg.nsrv_cfg           = 1;
+    app_cfg.srv_cfg[0]         = good;
+    app_cfg.rotate             = 0;
+    app_cfg.flags             &= ~(ARES_FLAG_USEVC);
+    sim_nfaults                = 0;
+    sim_rand_fault_permille    = 0;
+    app_nact                   = 0;
+    app_ntok                   = 0;
+    for (k = 0, t = 0; k < nb; k++) {
+      gen_add_token(rng, t);
+      t += (lead - 120000) / nb;
+    }
+    for (k = 0, t = lead + (int64_t)vh_below(rng, 50000); k < na; k++) {
+      gen_add_token(rng, t);
+      t += (int64_t)vh_range(rng, 60, 400) * 1000;
+    }
+    sim_note("retry_metrics_period_rollover");
+  }
 }
 
 static void retry_fingerprint(void)
